@@ -1,0 +1,233 @@
+//go:build verif
+
+package driver
+
+import (
+	"strings"
+	"unicode/utf8"
+
+	"github.com/grindlemire/go-lucene/internal/verifspec"
+	"github.com/grindlemire/go-lucene/pkg/lucene/expr"
+)
+
+// Contracts of the SQL driver (properties C02, C03, C04, C10, C13, C15, C01).
+// Rendered text is specified as a concatenation ("rope") of constant pieces and
+// the operand texts; fmt.Sprintf with a constant format is expanded into the same
+// rope by the verification engine.
+
+var (
+	_ = strings.ReplaceAll
+	_ = utf8.ValidString
+	_ = verifspec.B2I
+	_ = expr.LeafOp
+)
+
+// ---- templates ------------------------------------------------------------------------------------
+
+//@ func literal
+//@   props C02 C03 C10
+//@   functional
+//@   ensures result1 == nil ==> result0 == left && utf8.ValidString(left) && !strings.ContainsRune(left, 0)
+//@   ensures result1 != nil ==> result0 == ""
+
+//@ func equals
+//@   props C03 C10
+//@   functional
+//@   ensures result1 == nil && result0 == left+" = "+right
+
+//@ func noop
+//@   props C03 C10
+//@   functional
+//@   ensures result1 == nil && result0 == left
+
+//@ func inFn
+//@   props C03 C10
+//@   functional
+//@   ensures result1 == nil && result0 == left+" IN "+right
+
+//@ func list
+//@   props C03 C10
+//@   functional
+//@   ensures result1 == nil && result0 == "("+left+")"
+
+//@ func greater
+//@   props C03 C10
+//@   functional
+//@   ensures result1 == nil && result0 == left+" > "+right
+
+//@ func less
+//@   props C03 C10
+//@   functional
+//@   ensures result1 == nil && result0 == left+" < "+right
+
+//@ func greaterEq
+//@   props C03 C10
+//@   functional
+//@   ensures result1 == nil && result0 == left+" >= "+right
+
+//@ func lessEq
+//@   props C03 C10
+//@   functional
+//@   ensures result1 == nil && result0 == left+" <= "+right
+
+// IsRegexpText: the quoted text of a /.../ pattern as it reaches like().
+func IsRegexpText(right string) bool {
+	return len(right) >= 4 && right[1] == '/' && right[len(right)-2] == '/'
+}
+
+// Translate: the fixed wildcard translation * -> %, ? -> _.
+func Translate(s string) string {
+	return strings.ReplaceAll(strings.ReplaceAll(s, "*", "%"), "?", "_")
+}
+
+//@ func like
+//@   props C03 C04 C10
+//@   functional
+//@   ensures result1 == nil
+//@   ensures IsRegexpText(right) ==> result0 == left+" ~ "+right
+//@   ensures !IsRegexpText(right) ==> result0 == left+" SIMILAR TO "+Translate(right)
+
+//@ func rang
+//@   props C03 C10 C13 C01
+//@   functional
+//@   requires len(right) >= 2
+//@   ensures  result1 != nil ==> result0 == ""
+
+// ---- the recursive renderer --------------------------------------------------------------------------
+
+// Exempt: operators whose operands are never parenthesised.
+func Exempt(op expr.Operator) bool {
+	return op == expr.Range || op == expr.Not || op == expr.List || op == expr.In || op == expr.Literal || op == expr.Must || op == expr.MustNot
+}
+
+// LeafElem: a list element as parser and decoder build it (a term with nothing on its right).
+func LeafElem(e *expr.Expression) bool {
+	return e != nil && expr.LeafOp(e.Op) && e.Right == nil && expr.PlainValue(e.Left)
+}
+
+// RenderOK: what Render and RenderParam require of a tree (every node they
+// descend into): a range node carries a non-nil boundary, list elements are
+// terms, a pattern match has a string pattern on its right.
+func RenderOK(a any) bool {
+	switch v := a.(type) {
+	case *expr.Expression:
+		if v == nil || v.Op < 0 || v.Op >= 20 {
+			return false // typed-nil children and undeclared operators are never produced by the parser or the decoder
+		}
+		if v.Op == expr.Range {
+			b, ok := v.Right.(*expr.RangeBoundary)
+			if !ok || b == nil {
+				return false
+			}
+		}
+		if v.Op == expr.Like {
+			r, ok := v.Right.(*expr.Expression)
+			if !ok || r == nil || !expr.LeafOp(r.Op) || r.Right != nil {
+				return false
+			}
+			if _, isStr := r.Left.(string); !isStr {
+				return false
+			}
+		}
+		return RenderOK(v.Left) && RenderOK(v.Right)
+	case []*expr.Expression:
+		return verifspec.Forall(0, len(v), func(i int) bool { return LeafElem(v[i]) })
+	case *expr.RangeBoundary:
+		return v != nil && RenderOK(v.Min) && RenderOK(v.Max)
+	}
+	return true
+}
+
+// Registered: the driver has a function for op.
+func Registered(b Base, op expr.Operator) bool {
+	_, ok := b.RenderFNs[op]
+	return ok
+}
+
+// Builtin: every registered function is one of this repository's own.
+func Builtin(b Base) bool {
+	return verifspec.Forall(0, 20, func(op int) bool {
+		f, ok := b.RenderFNs[expr.Operator(op)]
+		return !ok || verifspec.RepoFn(f)
+	})
+}
+
+// RangAt: registered functions are non-nil, and the range template (which
+// re-parses its operand) is only registered for ranges.
+func RangAt(b Base) bool {
+	return verifspec.Forall(0, 20, func(op int) bool {
+		f, ok := b.RenderFNs[expr.Operator(op)]
+		return !ok || (f != nil && (expr.Operator(op) == expr.Range || !verifspec.SameFn(f, rang)))
+	})
+}
+
+// IsBoundaryVal: a is a range boundary.
+func IsBoundaryVal(a any) bool {
+	_, ok := a.(*expr.RangeBoundary)
+	return ok
+}
+
+// NotTypedNil: a is not a typed-nil expression pointer.
+func NotTypedNil(a any) bool {
+	e, ok := a.(*expr.Expression)
+	return !ok || e != nil
+}
+
+// Wrap: parentheses around a rendered operand unless it is simple.
+func Wrap(b Base, operand any, text string) string {
+	if b.isSimple(operand) {
+		return text
+	}
+	return "(" + text + ")"
+}
+
+// FoldStep: Render(e) is the registered function of e's operator applied to the
+// rendered left and right children, in that order, wrapped in parentheses at
+// most; a child's error or a missing function makes Render fail.
+func FoldStep(b Base, e *expr.Expression, s string, err error) bool {
+	l, lerr := b.serialize(e.Left)
+	if lerr != nil {
+		return err != nil
+	}
+	r, rerr := b.serialize(e.Right)
+	if rerr != nil {
+		return err != nil
+	}
+	if !Exempt(e.Op) {
+		l, r = Wrap(b, e.Left, l), Wrap(b, e.Right, r)
+	}
+	fn, ok := b.RenderFNs[e.Op]
+	if !ok {
+		return err != nil && s == ""
+	}
+	fs, ferr := fn(l, r)
+	return s == fs && (err == nil) == (ferr == nil)
+}
+
+//@ func (Base).isSimple
+//@   props C03 C15
+//@   pure
+//@   requires NotTypedNil(in)
+//@   ensures true
+
+//@ func (Base).Render
+//@   props C15 C10 C13 C01 C03
+//@   functional
+//@   structural
+//@   fuel 2 RenderOK=2
+//@   requires (e == nil || RenderOK(e)) && RangAt(b)
+//@   ensures  e == nil ==> s == "" && err == nil
+//@   ensures[fold] e != nil ==> FoldStep(b, e, s, err)
+//@   ensures[no-partial-sql] Builtin(b) && err != nil ==> s == ""
+
+//@ func (Base).serialize
+//@   props C15 C10 C13 C01 C02
+//@   functional
+//@   structural
+//@   rank 1
+//@   fuel 2 RenderOK=2
+//@   requires RenderOK(in) && RangAt(b)
+//@   ensures  in == nil ==> s == "" && err == nil
+//@   ensures[no-partial-sql] Builtin(b) && err != nil ==> s == ""
+//@   ensures[boundary-text] IsBoundaryVal(in) && err == nil ==> len(s) >= 4
+//@   loop 0: rangeinv true
